@@ -248,6 +248,33 @@ func cacheGenPool(r *common.Rand, n int, mode string) (map[string]common.JEvent,
 			}
 		}
 	}
+	// two requests of one author that share a target (and the first names something else as well): when the
+	// first leaves, the shared target stays blocked and the other one must become free again
+	if r.Chance(20) {
+		for i := range evs {
+			if evs[i].Kind != 5 {
+				continue
+			}
+			var shared []string
+			for _, t := range evs[i].Tags {
+				if len(t) >= 2 && (t[0] == "e" || t[0] == "a") {
+					shared = t[:2]
+					break
+				}
+			}
+			if shared == nil {
+				continue
+			}
+			for j := range evs {
+				if j != i && evs[j].Kind == 5 && r.Chance(50) {
+					evs[j].PK = evs[i].PK
+					evs[j].Tags = append([][]string{append([]string{}, shared...)}, evs[j].Tags...)
+					break
+				}
+			}
+			break
+		}
+	}
 	// a request that names one of its targets twice (the same id with and without a relay hint, the same
 	// address twice): its registry entries are met twice when it leaves
 	for i := range evs {
@@ -351,11 +378,25 @@ func cacheGen(r *common.Rand, mode string) cacheCase {
 	}
 	nq := map[string]int{"c03": 3, "c04": 0, "c05": 0}[mode]
 	var asked [][]common.JFilter
+	askedID := ""
 	for i := 0; i < nsteps; i++ {
 		st := cacheStep{E: common.Pick(r, ids)}
 		if r.Chance(12) && i > 0 { // re-offer an earlier event
 			st.E = c.Steps[r.Intn(i)].E
 		}
+		if askedID != "" && r.Chance(50) {
+			// right after a query that named an event by its id: a deletion request of the pool that names it too
+			for _, id := range ids {
+				if e := pool[id]; e.Kind == 5 {
+					for _, t := range e.Tags {
+						if len(t) >= 2 && t[0] == "e" && t[1] == askedID {
+							st.E = id
+						}
+					}
+				}
+			}
+		}
+		askedID = ""
 		nqs := nq
 		if nq == 0 && r.Chance(30) {
 			// the insertion histories of C04/C05 are interleaved with a few queries: reading must not
@@ -377,6 +418,7 @@ func cacheGen(r *common.Rand, mode string) cacheCase {
 				switch r.Intn(3) {
 				case 0:
 					f.IDs = common.Ptr([]string{ev.ID})
+					askedID = ev.ID
 				case 1:
 					f.Authors = common.Ptr([]string{ev.PK})
 				default:
